@@ -38,7 +38,8 @@ class Attribute(dict):
     @property
     def classes(self) -> list[str]:
         """Return 'class' attribute as list."""
-        return self["class"].split()
+        # note, an attribute without a value (e.g. `<div class>`) is stored as None
+        return (self["class"] or "").split()
 
     def __str__(self) -> str:
         """Return a htmlized representation for attributes."""
